@@ -319,23 +319,21 @@ def _order_exposed(n):
     if isinstance(p, ast.Call) and n in p.args:
         d = dotted(p.func) or ""
         if d == "sorted":
-            # sorted() is stable: a key under which different elements can compare equal keeps the set's own order among them
-            key = next((k.value for k in p.keywords if k.arg == "key"), None)
-            if key is None:
-                return None
-            if isinstance(key, ast.Lambda) and len(key.args.args) == 1:
-                a_ = key.args.args[0].arg
-                b_ = key.body
-                last = b_.elts[-1] if isinstance(b_, ast.Tuple) and b_.elts else b_
-                if isinstance(last, ast.Name) and last.id == a_:
-                    return None          # the element itself decides ties
-                if isinstance(last, ast.Call) and isinstance(last.func, ast.Name) and last.func.id in ("str", "repr") \
-                        and len(last.args) == 1 and isinstance(last.args[0], ast.Name) and last.args[0].id == a_:
-                    return None
-                return f"sorted(.., key={norm(key, 40)}) whose key can tie"
-            if isinstance(key, ast.Name) and key.id in ("str", "repr"):
-                return None
-            return None              # an opaque key function: not decided here
+            return _key_can_tie(p)
+        if d == "list" and len(p.args) == 1:
+            # X = list(S); X.sort(..)  ==  X = sorted(S, ..)
+            pp = parent(p)
+            if isinstance(pp, ast.Assign) and pp.value is p and len(pp.targets) == 1 and isinstance(pp.targets[0], ast.Name):
+                blk = parent(pp)
+                for fld in ("body", "orelse", "finalbody"):
+                    seq = getattr(blk, fld, None)
+                    if isinstance(seq, list) and pp in seq:
+                        i = seq.index(pp)
+                        nxt = seq[i + 1] if i + 1 < len(seq) else None
+                        if isinstance(nxt, ast.Expr) and isinstance(nxt.value, ast.Call) and isinstance(nxt.value.func, ast.Attribute) \
+                                and nxt.value.func.attr == "sort" and isinstance(nxt.value.func.value, ast.Name) \
+                                and nxt.value.func.value.id == pp.targets[0].id and not nxt.value.args:
+                            return _key_can_tie(nxt.value)
         if d in ("list", "tuple", "enumerate", "iter", "np.array", "np.asarray", "zip", "map", "dict.fromkeys", "next"):
             return f"{d}(..)"
         if d.endswith((".join", ".extend")) or d in ("np.random.choice", "np.random.permutation", "np.random.shuffle"):
@@ -373,6 +371,27 @@ def _order_exposed(n):
     if isinstance(p, ast.Starred):
         return "unpacking"
     return None
+
+
+def _key_can_tie(call):
+    """sorted()/list.sort() are stable: a key under which different elements can compare equal keeps the set's own order among
+    them.  None when the key (or its absence) decides every tie by the element itself, else a description."""
+    key = next((k.value for k in call.keywords if k.arg == "key"), None)
+    if key is None:
+        return None
+    if isinstance(key, ast.Lambda) and len(key.args.args) == 1:
+        a_ = key.args.args[0].arg
+        b_ = key.body
+        last = b_.elts[-1] if isinstance(b_, ast.Tuple) and b_.elts else b_
+        if isinstance(last, ast.Name) and last.id == a_:
+            return None          # the element itself decides ties
+        if isinstance(last, ast.Call) and isinstance(last.func, ast.Name) and last.func.id in ("str", "repr") \
+                and len(last.args) == 1 and isinstance(last.args[0], ast.Name) and last.args[0].id == a_:
+            return None
+        return f"sort(.., key={norm(key, 40)}) whose key can tie"
+    if isinstance(key, ast.Name) and key.id in ("str", "repr"):
+        return None
+    return None              # an opaque key function: not decided here
 
 
 def _int_set(fi, n) -> bool:
